@@ -154,6 +154,27 @@ def replay(ctx, path):
         vlib.write_ndjson(one, [rp["case"]])
         s = vlib.harness(b, rp["cmd"], "--cases", one, "--out", os.path.join(d, "mm.ndjson"))
         bad = s["mismatches"] > 0
+    elif kind == "xxh-lives":
+        from checks import framelib as fl
+        bad = False
+        for _ in range(5):
+            again, _f = fl.shard_run(b, "pipe-run", [rp["case"]], d, "rl", nshards=1, extra=("--watchdog", "30s"))
+            r = again.get(rp["case"]["id"])
+            if r and not r["hung"] and not r.get("lastSegOK"):
+                bad = True
+                break
+    elif kind in ("xxh-frame", "xxh-frame-read"):
+        from checks import framelib as fl
+        if kind == "xxh-frame":
+            again, _f = fl.shard_run(b, "frame-write", [rp["case"]], d, "rf", nshards=1)
+            t2 = os.path.join(d, "rf.ndjson")
+            vlib.write_ndjson(t2, [fl.emit_events(again[rp["case"]["id"]])])
+            acc, rej = vlib.validate_trace(ctx, "LZ4Frame_Trace", t2, cfg="LZ4Frame_Trace_C09", shards=1)
+            bad = bool(rej)
+        else:
+            again, _f = fl.shard_run(b, "frame-read", [rp["case"]], d, "rf", nshards=1)
+            r = again[rp["case"]["id"]]
+            bad = r["outcome"] != "clean" or not r["sameAsContent"]
     elif kind == "xxh-trace":
         one = os.path.join(d, "rej.ndjson")
         vlib.write_ndjson(one, rp["lines"])
@@ -249,3 +270,33 @@ def frame_level(ctx, b, d):
         if r["outcome"] != "clean" or not r["sameAsContent"]:
             ctx.violation("frame-read:%s" % r["err"], "the Reader rejects a frame whose checksum fields are reference XXH32 (%s)" % r["err"],
                           {"kind": "xxh-frame-read", "case": c, "observed": {k: v for k, v in r.items() if k not in ("bytes", "delivered", "content")}})
+    # the content hash across the lives of one Writer: a frame abandoned by Reset while blocks are still in the concurrent
+    # pipeline (slow sink), then a new frame - its content checksum must again be the reference XXH32 of its own content
+    B = 65536
+    lc = []
+    for i in range(12):
+        total = (4 + i % 3) * B + [0, 5, 1000][i % 3]
+        mid = (2 + i % 2) * B
+        lc.append({"id": i + 1, "kind": "writer", "lives": True, "input": {"family": "text", "len": total, "seed": 70 + i},
+                   "opts": {"code": 4, "bcs": i % 2 == 0, "ccs": True, "level": 0, "conc": [4, 2, 16][i % 3], "legacy": False, "handler": False},
+                   "calls": [{"op": "write", "n": mid}, {"op": "reset"}, {"op": "write", "n": total - mid}, {"op": "close"}],
+                   "seed": ctx.seed * 100 + i, "perturb": 0, "poison": False, "slowio": [300, 1000, 50][i % 3]})
+    lr, faults = fl.shard_run(b, "pipe-run", lc, d, "c13l", extra=("--watchdog", "30s"))
+    if faults:
+        raise vlib.MachineryFault("pipe-run failed: %s" % faults[0]["stderr"][-500:])
+    ctx.evaluations += len(lc)
+    for c in lc:
+        r = lr.get(c["id"])
+        if r is None or r["hung"] or r.get("lastSegOK"):
+            continue            # hangs and crashes belong to C08 / C17
+        ok = 0
+        for _ in range(5):
+            again, _f = fl.shard_run(b, "pipe-run", [c], d, "c13lagain", nshards=1, extra=("--watchdog", "30s"))
+            if again.get(c["id"]) and not again[c["id"]].get("lastSegOK") and not again[c["id"]]["hung"]:
+                ctx.violation("frame:content-checksum-after-reset", "the frame written after Reset of a concurrent Writer with blocks in flight is not "
+                              "accepted by the strict reference parse (content checksum != reference XXH32 of its content)",
+                              {"kind": "xxh-lives", "case": c, "observed": {k: v for k, v in again[c["id"]].items() if k != "events"}})
+                break
+            ok += 1
+        if ok == 5:
+            ctx.unreproducible("frame after Reset rejected once, accepted 5 times: case %s" % json.dumps(c)[:200])
